@@ -1,8 +1,10 @@
 package clisim
 
 import (
+	"bytes"
 	"fmt"
 	"os"
+	"path/filepath"
 	"strings"
 
 	"verif/sim"
@@ -48,8 +50,11 @@ var badContent = map[string][]string{
 	"xml":  {},
 }
 
-// types whose minifier is linear enough for inputs of several MiB
-var hugeOK = map[string]bool{"css": true, "js": true, "json": true, "svg": true, "xml": true, "txt": true, "md": true}
+// types whose minifier is linear enough for inputs of several MiB (the JS minifier is not:
+// 1.6 MB of consecutive var statements take 38 s, see DESIGN §8.4)
+var hugeOK = map[string]bool{"css": true, "json": true, "svg": true, "xml": true, "txt": true, "md": true}
+
+var noHuge bool
 
 var minifiableExts = []string{"css", "js", "html", "json", "svg", "xml", "mjs", "htm", "tmpl", "php", "asp", "gohtml", "mustache", "handlebars", "ejs"}
 var otherExts = []string{"txt", "md", ""}
@@ -76,7 +81,7 @@ func Content(tape *sim.Tape, ext string, allowBad bool) ([]byte, string) {
 		n := 0
 		target := 33000 + tape.Draw(40000)
 		kind := "large"
-		if hugeOK[ext] && tape.Draw(16) == 0 {
+		if hugeOK[ext] && tape.Draw(5) == 0 && !noHuge {
 			// several MiB: beyond any threshold at which a tool switches from buffering to
 			// streaming, and hundreds of copy rounds in sync mode
 			target = 4<<20 + tape.Draw(1<<20)
@@ -105,10 +110,19 @@ func Content(tape *sim.Tape, ext string, allowBad bool) ([]byte, string) {
 			}
 			n++
 		}
-		switch ext {
-		case "json":
+		lateError := allowBad && (ext == "json" || ext == "js" || ext == "mjs") && tape.Draw(4) == 0
+		switch {
+		case lateError && ext == "json":
+			// the library rejects the document only at its very end, after it has produced
+			// nearly all of its output
+			sb.WriteString(" }\n")
+			kind += "-bad"
+		case lateError:
+			sb.WriteString("var = ;\n")
+			kind += "-bad"
+		case ext == "json":
 			sb.WriteString(" ]\n")
-		case "svg", "xml":
+		case ext == "svg" || ext == "xml":
 			sb.WriteString("</svg>\n")
 		}
 		return []byte(sb.String()), kind
@@ -192,6 +206,11 @@ const nCrashShapes = 10
 
 // GenCase draws a scenario. crashBias restricts the shapes to those relevant for C20.
 func GenCase(tape *sim.Tape, crashBias bool) *Case {
+	// files of several MiB only where a scenario is run a handful of times (C19), not where it
+	// is re-run once per crash point (C20). The draw is made either way, so one tape means
+	// the same scenario apart from that size.
+	noHuge = crashBias
+	defer func() { noHuge = false }()
 	n := len(shapes)
 	if crashBias {
 		n = nCrashShapes
@@ -517,6 +536,43 @@ func GenCase(tape *sim.Tape, crashBias bool) *Case {
 	// size of the worker pool: 4 (1 CPU), 6, 9 or whatever the machine gives
 	if tape.Draw(2) == 0 {
 		iv.CPUs = []int{1, 6, 9}[tape.Draw(3)]
+	}
+	// a second run over an output directory that is already populated: destinations that
+	// exist before the run with unrelated, same-length, identical or nearly identical content
+	// (written after the inputs, so not older than them)
+	if tape.Draw(4) == 0 {
+		if ex := iv.Expect(t); !ex.Rejected && ex.Unsure == "" {
+			for _, j := range ex.Jobs {
+				d := filepath.Clean(j.Dst)
+				if j.Dst == "" || filepath.IsAbs(j.Dst) || strings.Contains(j.Dst, "@ROOT@") || strings.HasPrefix(d, "..") || t.Lookup(d) != nil || len(j.Srcs) == 0 {
+					continue
+				}
+				k := tape.Draw(6)
+				if k >= 4 {
+					continue
+				}
+				var src []byte
+				if e, _ := t.resolve(j.Srcs[0], 0); e != nil {
+					src = e.Data
+				}
+				var data []byte
+				switch k {
+				case 0:
+					data = []byte("stale destination\n")
+				case 1:
+					data = bytes.Repeat([]byte("#"), len(src))
+				case 2:
+					data = append([]byte(nil), src...)
+				case 3:
+					data = append([]byte(nil), src...)
+					if len(data) > 0 {
+						data[len(data)/2] ^= 0x20
+					}
+				}
+				t.Entries = append(t.Entries, Entry{Path: d, Kind: KFile, Data: data, Mode: 0o644})
+				iv.Prepopulated++
+			}
+		}
 	}
 	return &Case{Tree: t, Inv: iv, Shape: shape}
 }
